@@ -45,10 +45,11 @@ type Probe struct {
 	Pass       string `json:"pass,omitempty"`
 	ExpectEcho bool   `json:"expectEcho,omitempty"`
 	ExpectRST  bool   `json:"expectRST,omitempty"`
-	Silent     bool   `json:"silent,omitempty"`   // connect (and finish the proxy handshake) but send no payload at first
-	Greet      bool   `json:"greet,omitempty"`    // the target speaks first; the payload follows its greeting
-	SilentMs   int    `json:"silentMs,omitempty"` // without a greeting: how long to stay silent before the payload
-	Path       string `json:"path,omitempty"`     // api
+	ExpectFB   bool   `json:"expectFallback,omitempty"` // reject probe: the garbage must come back from the fallback (echo) target
+	Silent     bool   `json:"silent,omitempty"`         // connect (and finish the proxy handshake) but send no payload at first
+	Greet      bool   `json:"greet,omitempty"`          // the target speaks first; the payload follows its greeting
+	SilentMs   int    `json:"silentMs,omitempty"`       // without a greeting: how long to stay silent before the payload
+	Path       string `json:"path,omitempty"`           // api
 }
 
 // Plan is a configuration plus the smoke script that exercises it.
@@ -233,6 +234,8 @@ func runOnce(p *Plan, env *netEnv, res *Result) (retry bool) {
 			r = udpExchange(pr, addr, target)
 		case pr.Kind == "reject":
 			r = rejectProbe(pr, addr)
+		case pr.Kind == "scan-close" || pr.Kind == "scan-byte":
+			r = scanProbe(pr, addr)
 		case pr.Kind == "api":
 			r = apiProbe(pr, addr)
 		default:
@@ -380,6 +383,9 @@ func evaluate(p *Plan, r *Result, tolerateRejectEOF bool) (violation string, exe
 		}
 		if pp.Kind == "reject" {
 			labels = append(labels, "reject-outcome:"+pr.Outcome)
+			if pp.ExpectFB && pr.Outcome != "fallback-echo" {
+				return fmt.Sprintf("SIG=C18/smoke-fallback server=%s: unauthenticated bytes must reach unsafeFallbackAddress unchanged and its reply must come back, got outcome %q %s", pp.Server, pr.Outcome, pr.Err), false, labels
+			}
 			if pp.ExpectRST && pr.Outcome == "eof" && tolerateRejectEOF {
 				labels = append(labels, "known-reject-eof")
 			} else if pp.ExpectRST && pr.Outcome == "eof" {
